@@ -710,7 +710,8 @@ fn resolve_symbol_address(label: &str) -> Option<u16> {
     with_symbol_table(|sym| {
         if let Some(addr) = sym.get(label) {
             // -1 to account for PC being incremented before instruction is executed
-            return Some(addr - 1);
+            // (a label after the 65535th statement has wrapped around to 0)
+            return Some(addr.wrapping_sub(1));
         }
 
         dprintln!(
